@@ -11,8 +11,8 @@ import (
 
 func init() {
 	register(&PropMeta{
-		ID:    "C09",
-		Level: "other",
+		ID:          "C09",
+		Level:       "other",
 		Explanation: "Decides the protocol the gate drives on its ready group: (R1) Setup performs Stop → OnCompleted → ResetParticipants → Add(index, false) for every given participant → Start, nothing on the ready group after Start, and stores the game count before Start; (R2) a ready signal from an unknown participant returns the not-found error before the ready group is touched, the ready flag is stored only on the success path and the signalled index is the looked-up participant's; (R3) the user callback is invoked from exactly one function, which first marks every participant ready and passes a by-value state snapshot, and that function is called only from completion closures registered with OnCompleted; (R4) both constructors build the ready group with the configured timeout and a handler that readies every not-yet-ready participant; (R5) the gate rebuilt from a saved state registers the same completion target, copies game count and participants and re-adds them (pending first, then the ready ones as ready). NOT decided: exactly-once / supersession / timeout behaviour under schedules (syncsaga's atomics and goroutines).",
 		Rules: map[string]string{
 			"R1": "set-up typestate on the ready group; nobody pre-readied; game count stored before Start",
@@ -175,6 +175,14 @@ func checkC09(c *Ctx) {
 		for _, o := range ops {
 			if o.Top != start.Top && Reaches(start.Top, o.Top) {
 				c.Bad("R1", "setup:after-start:"+o.Op, p.InstrPos(o.Top), "ready-group operation "+o.Op+" after Start")
+			}
+		}
+		// every path through Setup arms the gate: no return without passing Stop … Start
+		for _, b := range setup.Blocks {
+			for _, in := range b.Instrs {
+				if r, ok := in.(*ssa.Return); ok {
+					c.Check(passesOneOf(r, []ssa.Instruction{start.Top}) && passesOneOf(r, []ssa.Instruction{stop.Top}), "R1", "setup:every-path-arms-the-gate", p.InstrPos(r), "no exit without Stop and Start", "Setup has a path that returns without stopping the previous round and starting the new one: an unfinished set-up is not superseded")
+				}
 			}
 		}
 		// game count stored before Start, from the parameter
@@ -376,7 +384,9 @@ func checkC09(c *Ctx) {
 						if calleeName(c3.Common()) == "syncsaga.ReadyGroup.Ready" {
 							idx := p.Sym(c3.Common().Args[1]).Strip()
 							gs := p.Guards(c3)
-							notReady := guardedBy(gs, false, func(s *Sym) bool { return s.Kind == "rangeval" && s.Args[0].IsCall("syncsaga.ReadyGroup.GetParticipantStates") })
+							notReady := guardedBy(gs, false, func(s *Sym) bool {
+								return s.Kind == "rangeval" && s.Args[0].IsCall("syncsaga.ReadyGroup.GetParticipantStates")
+							})
 							if idx.Kind == "rangekey" && idx.Args[0].IsCall("syncsaga.ReadyGroup.GetParticipantStates") && notReady {
 								okT = true
 							}
